@@ -35,6 +35,9 @@ pub enum Inj {
     Query { at_ms: u32, kind: u8 },
     /// response with a transaction id not derived from a request the node sent
     Resp { at_ms: u32, tid: TidClass, from_contact: bool },
+    /// query from one of the silent addresses that answering parties name (hearsay contacts,
+    /// possibly dropped already), carrying that node's id
+    QueryFromNamed { at_ms: u32, k: u16, kind: u8 },
 }
 
 #[derive(Clone, Debug, Serialize, Deserialize)]
@@ -88,7 +91,8 @@ impl Stage for Unasked {
         let at = prop_oneof![2 => Just(0u32), 3 => 0u32..3000, 3 => 0u32..20_000];
         let inj = prop_oneof![
             2 => (at.clone(), 0u8..4).prop_map(|(at_ms, kind)| Inj::Query { at_ms, kind }),
-            3 => (at, tid, any::<bool>()).prop_map(|(at_ms, tid, from_contact)| Inj::Resp { at_ms, tid, from_contact }),
+            3 => (at.clone(), tid, any::<bool>()).prop_map(|(at_ms, tid, from_contact)| Inj::Resp { at_ms, tid, from_contact }),
+            2 => (prop_oneof![at, 10_000u32..60_000], any::<u16>(), 0u8..3).prop_map(|(at_ms, k, kind)| Inj::QueryFromNamed { at_ms, k, kind }),
         ];
         (
             (any::<bool>(), prop::bool::weighted(0.3), 0u8..=6, 0u8..=3, 0u8..=2, 0u8..=1),
@@ -183,7 +187,7 @@ impl Stage for Unasked {
             // injections in time order
             let mut inj: Vec<&Inj> = c.injections.iter().collect();
             inj.sort_by_key(|i| match i {
-                Inj::Query { at_ms, .. } | Inj::Resp { at_ms, .. } => *at_ms,
+                Inj::Query { at_ms, .. } | Inj::Resp { at_ms, .. } | Inj::QueryFromNamed { at_ms, .. } => *at_ms,
             });
             let mut strangers: HashSet<SocketAddr> = HashSet::new();
             let mut forged_values: HashSet<SocketAddr> = HashSet::new();
@@ -191,6 +195,8 @@ impl Stage for Unasked {
             let mut classes: HashSet<&'static str> = HashSet::new();
             let mut busy = false;
             let answering: HashSet<SocketAddr> = live.iter().map(|l| l.1).collect();
+            // named (hearsay) nodes that have sent the node a query: these may legitimately be good
+            let mut queried_named: HashSet<SocketAddr> = HashSet::new();
             macro_rules! check {
                 ($when:expr) => {{
                     let Some(Ok((good, quest))) = within(Duration::from_secs(5), dht.load_contacts()).await else {
@@ -214,7 +220,7 @@ impl Stage for Unasked {
                             return Outcome::violation(k, format!("{}: contacts contain {a} (good: {}, questionable: {})", $when, good.len(), quest.len()));
                         }
                     }
-                    if let Some(a) = good.iter().find(|a| !answering.contains(a)) {
+                    if let Some(a) = good.iter().find(|a| !answering.contains(a) && !queried_named.contains(a)) {
                         return Outcome::violation("hearsay-contact-reported-good", format!("{}: {a} is reported good although it never answered or queried the node", $when));
                     }
                     if !good.is_empty() || !quest.is_empty() {
@@ -245,6 +251,44 @@ impl Stage for Unasked {
                         net.inject(src, node, &KMsg { tid: vec![b'q', n as u8], body: KBody::Query(q) }.encode());
                         net.settle().await;
                         check!(format!("after unsolicited query #{n} from {src}"));
+                    }
+                    Inj::QueryFromNamed { at_ms, k, kind } => {
+                        net.sleep_until(Duration::from_millis(*at_ms as u64)).await;
+                        if c.names == 0 {
+                            continue;
+                        }
+                        let i = idx(*k, c.names as usize) as u16;
+                        let (src, id) = (fam_addr(c.v6, 1000 + i, 7100), rid(5000 + i as u64).to_vec());
+                        let Some(Ok((g0, q0))) = within(Duration::from_secs(5), dht.load_contacts()).await else {
+                            return Outcome::violation("node-dead", "load_contacts does not answer");
+                        };
+                        let q = match kind % 3 {
+                            0 => KQuery::Ping { id },
+                            1 => KQuery::FindNode { id, target: node_id.to_vec(), want: KWant::Absent },
+                            _ => KQuery::GetPeers { id, info_hash: H.to_vec(), want: KWant::Absent },
+                        };
+                        classes.insert("query-from-named-node");
+                        queried_named.insert(src);
+                        let start = net.log_len();
+                        net.inject(src, node, &KMsg { tid: vec![b'n', n as u8], body: KBody::Query(q) }.encode());
+                        net.settle().await;
+                        let Some(Ok((g1, q1))) = within(Duration::from_secs(5), dht.load_contacts()).await else {
+                            return Outcome::violation("node-dead", "load_contacts does not answer");
+                        };
+                        let before = g0.contains(&src) || q0.contains(&src);
+                        let after = g1.contains(&src) || q1.contains(&src);
+                        if !before && after {
+                            // unless a genuine response named it (again) within 5 ms before or 1 ms after the query
+                            let t_inj = *at_ms as u64;
+                            let _ = start;
+                            let renamed = net.log().iter().rev().take_while(|e| e.ms() + 5 >= t_inj).any(|e| {
+                                e.to == node && e.kind == EvKind::Deliver && matches!(KMsg::decode(&e.bytes), Ok(KMsg { body: KBody::Resp(r), .. }) if r.nodes.iter().any(|x| SocketAddr::V4(x.1) == src) || r.nodes6.iter().any(|x| SocketAddr::V6(x.1) == src))
+                            });
+                            if !renamed {
+                                return Outcome::violation("query-readmitted-its-sender", format!("{src} was not among the contacts (never admitted or dropped), sent a query at t={} ms, and is among the contacts afterwards (good: {})", at_ms, g1.contains(&src)));
+                            }
+                        }
+                        check!(format!("after query #{n} from named node {src}"));
                     }
                     Inj::Resp { at_ms, tid, from_contact } => {
                         net.sleep_until(Duration::from_millis(*at_ms as u64)).await;
@@ -326,7 +370,7 @@ impl Stage for Unasked {
         })
     }
     fn rule(&self) -> String {
-        "one real node (serving/read-only, v4/v6) with 0..6 answering and 0..3 silent contacts and 0..3 literal routers (answering or silent); answering parties name up to 260 fresh silent addresses, and optionally the node's own id, router addresses, duplicates, one id under two addresses, in every node list; optionally a search is started; 2..23 injections at generated times from 0 ms (before any request) to 20 s: unsolicited queries of every kind from fresh strangers, and responses (carrying unique values, tokens and named nodes) whose transaction id is short (0..7 B), long (9..32 B), 8 bytes with an action id >= 2^20, a transaction id the node really just sent plus 1..4 extra bytes, or a truncated real one, from a stranger or from the address the real query went to. Oracle after every injection, 40 s later and after find_node probes: contacts contain only configured contacts and addresses named by parties that were asked; never a stranger, a name from a foreign response, a router, the own id; good only for parties that answered; the search yields only values from genuine answers. Non-trivial: the node had contacts or a running search, and >= 2 injection classes".into()
+        "one real node (serving/read-only, v4/v6) with 0..6 answering and 0..3 silent contacts and 0..3 literal routers (answering or silent); answering parties name up to 260 fresh silent addresses, and optionally the node's own id, router addresses, duplicates, one id under two addresses, in every node list; optionally a search is started; 2..23 injections at generated times from 0 ms (before any request) to 20 s: unsolicited queries of every kind from fresh strangers, and responses (carrying unique values, tokens and named nodes) whose transaction id is short (0..7 B), long (9..32 B), 8 bytes with an action id >= 2^20, a transaction id the node really just sent plus 1..4 extra bytes, or a truncated real one, from a stranger or from the address the real query went to; and queries from the silent addresses that answering parties name (hearsay contacts, by then possibly dropped). Oracle after every injection, 40 s later and after find_node probes: contacts contain only configured contacts and addresses named by parties that were asked; never a stranger, a name from a foreign response, a router, the own id; good only for parties that answered; the search yields only values from genuine answers; a query never brings its sender (back) into the contacts. Non-trivial: the node had contacts or a running search, and >= 2 injection classes".into()
     }
 }
 
